@@ -122,11 +122,12 @@ def partial_channel(
         if phi_list:
             phi = []
             for m in phi_list:
+                # Left and right operators differ when the surrounding row and column dimensions differ.
                 phi.append(
-                    np.kron(
-                        np.kron(np.identity(prod_dim_r1), m),
-                        np.identity(prod_dim_r2),
-                    )
+                    [
+                        np.kron(np.kron(np.identity(prod_dim_r1), m), np.identity(prod_dim_r2)),
+                        np.kron(np.kron(np.identity(prod_dim_c1), m), np.identity(prod_dim_c2)),
+                    ]
                 )
             phi_x = apply_channel(rho, phi)
         else:
